@@ -296,7 +296,7 @@ impl ExtendedDataSquare {
     ) -> Result<ExtendedDataSquare> {
         let ods_width = f64::sqrt(ods_shares.len() as f64) as usize;
         // this couldn't be detected later in `new()`
-        if ods_width * ods_width != ods_shares.len() {
+        if ods_width == 0 || ods_width * ods_width != ods_shares.len() {
             return Err(Error::EdsInvalidDimentions);
         }
 
